@@ -128,8 +128,8 @@ def run(ck):
         cbg = call_nodes(lambda c: isinstance(c.func, ast.Attribute) and c.func.attr == "compute_batch_gradients")
         sch = call_nodes(lambda c: is_method(c, "scheduler", "step"))
         ck.check(len(steps) == 1, "C06.R2", "exactly one optimizer.step() site", fsite, "optimizer.step() appears %d times in fit" % len(steps))
-        ck.check(len(cbg) == 1 and len(zgs) >= 1 and len(vtg) >= 1, "C06.R2", "batch pipeline present", fsite, "compute_batch_gradients / zero_grad / vector_to_grads not all found")
-        if len(steps) == 1 and cbg and zgs and vtg:
+        ck.check(len(cbg) == 1 and len(vtg) >= 1, "C06.R2", "batch pipeline present", fsite, "compute_batch_gradients / vector_to_grads not found")
+        if len(steps) == 1 and cbg and vtg:
             sn = steps[0][0]
             encl = [l.id for l in cfg.enclosing_loops(sn.id)]
             ck.check(encl == [eloop.id, bloop.id], "C06.R2", "optimizer.step() once per batch", "%s:%s:%d" % (fit.module.relpath, fit.qualname, sn.lineno),
@@ -139,7 +139,7 @@ def run(ck):
             ck.check(not conds, "C06.R2", "optimizer.step() unconditional within the batch", fsite, "optimizer.step() is guarded by `%s`" % (conds[0].label if conds else ""))
             vloop = cfg.enclosing_loops(vtg[0][0].id)
             vnode = vloop[-1] if len(vloop) >= 3 else vtg[0][0]  # the loop over the networks stands for its body
-            order = [("compute_batch_gradients", cbg[0][0]), ("optimizer.zero_grad", zgs[0][0]), ("vector_to_grads", vnode), ("optimizer.step", sn)]
+            order = [("compute_batch_gradients", cbg[0][0]), ("vector_to_grads", vnode), ("optimizer.step", sn)]
             for (n1, a), (n2, b) in zip(order, order[1:]):
                 ck.check(cfg.dominates(a.id, b.id) and a.id != b.id, "C06.R2", "%s before %s" % (n1, n2), "%s:%s:%d" % (fit.module.relpath, fit.qualname, b.lineno),
                          "%s does not precede %s on every path of a batch iteration" % (n1, n2))
@@ -148,7 +148,10 @@ def run(ck):
             ck.check(len(ve) == 3 and ve[:2] == [eloop, bloop] and "networks" in ast.unparse(ve[2].ast.iter), "C06.R3", "gradients assigned for every network", fsite,
                      "vector_to_grads is not called in a loop over self.networks inside the batch loop")
             # zero_grad must not come after the assignment
-            ck.check(not cfg.dominates(vtg[0][0].id, zgs[0][0].id), "C06.R2", "gradients not cleared after assignment", fsite, "optimizer.zero_grad() runs after the gradients were assigned")
+            for zn, _ in zgs:
+                bad = cfg.dominates(vnode.id, zn.id) and cfg.dominates(zn.id, sn.id)
+                ck.check(not bad, "C06.R2", "gradients not cleared between assignment and step", "%s:%s:%d" % (fit.module.relpath, fit.qualname, zn.lineno),
+                         "optimizer.zero_grad() runs after the gradients were assigned and before optimizer.step(): the update is lost")
         # ---------------- R4 scheduler
         ck.check(len(sch) == 1, "C06.R4", "exactly one scheduler.step() site", fsite, "scheduler.step() appears %d times in fit" % len(sch))
         if len(sch) == 1:
@@ -210,10 +213,13 @@ def run(ck):
                 # timeline order inside one batch iteration
                 tl = [(k_, n_) for k_, n_, _ in it.timeline if n_ in ("optimizer.zero_grad", "optimizer.step", "NeuralStateBase.compute_batch_gradients", "scheduler.step") or n_.endswith("vector_to_grads")]
                 names = ["cbg" if n.endswith("compute_batch_gradients") else ("vtg" if n.endswith("vector_to_grads") else n) for _, n in tl]
-                one = ["cbg", "optimizer.zero_grad"] + ["vtg"] * len(nets) + ["optimizer.step"]
+                one = ["cbg"] + ["vtg"] * len(nets) + ["optimizer.step"]
                 want_tl = one * 2 + one * 2  # (first, generic) batch x (first, generic) epoch
-                got_tl = [x for x in names if x != "scheduler.step"]
-                ck.check(got_tl == want_tl, "C06.R2", inst + ":zero_grad -> assign -> step per batch", fsite, "operation order per analysed batch is %s" % got_tl[: len(one) + 2])
+                got_tl = [x for x in names if x not in ("scheduler.step", "optimizer.zero_grad")]
+                ck.check(got_tl == want_tl, "C06.R2", inst + ":gradients computed -> assigned -> one step, per batch", fsite, "operation order per analysed batch is %s" % got_tl[: len(one) + 2])
+                # a zero_grad between the last assignment and the step would discard the update
+                lost = any(a == "vtg" and b == "optimizer.zero_grad" for a, b in zip(names, names[1:]))
+                ck.check(not lost, "C06.R2", inst + ":no zero_grad between assignment and step", fsite, "gradients are cleared after they were assigned")
     # ------------------------------------------------------------------ R5 vector_to_grads
     vf = prog.func("qucumber.utils.gradients_utils", "vector_to_grads")
     for rbm in ("BinaryRBM", "PurificationRBM"):
